@@ -793,6 +793,23 @@ impl Check for FireCheck {
             l = w;
             run.set("wide_pattern", 1);
         }
+        {
+            // (own stream) a fully symmetric four-slot child: the pattern sits next to the leaf (p4 $0 $1 $40 $41)
+            // and two p2 leaves that pin its slots; the executor asserts S4 on the leaf (a 4-cycle and a
+            // transposition), so the parent e-node has 24 group-compatible variants and the pattern's
+            // orientation is one of them
+            let mut sr = Rng::stream(seed, "sym4");
+            if self.id == "C04" && run.get("wide_pattern") == 0 && sr.chance(1, 10) {
+                let leaf = Pat::node("p4", vec![0, 1, 40, 41], vec![]);
+                let pin1 = Pat::node("p2", vec![0, 41], vec![]);
+                let pin2 = Pat::node("p2", vec![1, 40], vec![]);
+                l = Pat::node("t", vec![], vec![(vec![], leaf), (vec![], pin1), (vec![], Pat::node("b", vec![], vec![(vec![], pin2), (vec![], l.clone())]))]);
+                run.set("sym4", 1 + sr.below(3) as i64);
+            }
+            // (own stream) the left pattern is matched once (read-only) BEFORE the union that makes a child
+            // symmetric: whatever the matcher remembers about an e-node must not outlive that union
+            run.set("prematch", Rng::stream(seed, "prematch").chance(1, 3) as i64);
+        }
         // right side over the same variables, respecting binder scopes
         let mut vars = Vec::new();
         l.vars(&mut vars);
@@ -984,6 +1001,10 @@ impl Check for FireCheck {
                             *root_term = l3.clone();
                             let a = tau.rename_keep_binders(&rho);
                             let b = sw.rename_keep_binders(&rho);
+                            if run.get("prematch") != 0 {
+                                let pat = l.to_pattern::<LS>(&mut s.nm);
+                                let _ = ematch_all(&s.eg, &pat);
+                            }
                             s.union_terms(&a, &b, true, false);
                         }
                         None => {
@@ -999,11 +1020,41 @@ impl Check for FireCheck {
                     if fs.len() >= 2 {
                         let m: BTreeMap<S, S> = [(fs[0], fs[1]), (fs[1], fs[0])].into_iter().collect();
                         let sw = tau.rename_keep_binders(&m);
+                        if run.get("prematch") != 0 {
+                            let pat = l.to_pattern::<LS>(&mut s.nm);
+                            let _ = ematch_all(&s.eg, &pat);
+                        }
                         s.union_terms(&tau, &sw, true, false);
                     }
                 }
                 _ => {
                     s.add_term(&li, false);
+                }
+            }
+            if run.get("sym4") != 0 {
+                // S4 on the four-slot leaf of the left side: a 4-cycle and a transposition (in one of three orders)
+                let leaf = Tm::leaf("p4", vec![0, 1, 40, 41]).rename_keep_binders(&rho);
+                let a = leaf.slots.clone();
+                let cyc: BTreeMap<S, S> = [(a[0], a[1]), (a[1], a[2]), (a[2], a[3]), (a[3], a[0])].into_iter().collect();
+                let tr: BTreeMap<S, S> = [(a[0], a[1]), (a[1], a[0])].into_iter().collect();
+                if run.get("prematch") != 0 {
+                    let pat = l.to_pattern::<LS>(&mut s.nm);
+                    let _ = ematch_all(&s.eg, &pat);
+                }
+                match run.get("sym4") {
+                    1 => {
+                        s.union_terms(&leaf, &leaf.rename_keep_binders(&cyc), true, false);
+                        s.union_terms(&leaf, &leaf.rename_keep_binders(&tr), true, false);
+                    }
+                    2 => {
+                        s.union_terms(&leaf.rename_keep_binders(&tr), &leaf, true, false);
+                        s.union_terms(&leaf.rename_keep_binders(&cyc), &leaf, true, false);
+                    }
+                    _ => {
+                        let tr2: BTreeMap<S, S> = [(a[2], a[3]), (a[3], a[2])].into_iter().collect();
+                        s.union_terms(&leaf, &leaf.rename_keep_binders(&tr2), true, false);
+                        s.union_terms(&leaf, &leaf.rename_keep_binders(&cyc), true, false);
+                    }
                 }
             }
             // make the class of the instance bigger: balanced unions with other terms
